@@ -906,8 +906,8 @@ class TypeBlocks(ContainerOperand):
                     if b.size == 1 and size_one_unity and not skipna:
                         # No function call is necessary; if skipna could turn NaN to zero.
                         end = pos + 1
-                        # Can assign an array, even 2D, as an element if size is 1
-                        out[pos] = b
+                        # assign the single element, not the 1D or 2D array that holds it
+                        out[pos] = b.reshape(-1)[0]
                     elif b.ndim == 1:
                         end = pos + 1
                         out[pos] = func(array=b, axis=axis)
